@@ -280,6 +280,13 @@ func (c *RemoteClient) Ready(ctx context.Context, nextMessageID uint64) error {
 		nextMessageID = 1 // first message id is 1
 	}
 
+	if !c.accepted.Load().(bool) {
+		// The service has not accepted the current connection. This can be a call made for the
+		// accept of a previous connection after a reconnect. Marking the handshake complete now
+		// would release queued requests onto a connection that is not authenticated.
+		return errors.Wrap(ErrNotConnected, "not accepted")
+	}
+
 	m := &Ready{
 		NextMessageID: nextMessageID,
 	}
